@@ -304,6 +304,16 @@ func supervise(c *Check, tier string, seed int64) int {
 	for i, st := range states {
 		if st.err != "" {
 			broken = append(broken, st.err)
+			// a shard that gave up (e.g. restarted too often because very many cases kill or hang the worker) still
+			// tells what it saw: its checkpoints, and every case its worker died in - those are violations of the
+			// property under check, not only a broken run
+			for _, r := range st.partials {
+				mergeInto(merged, r)
+			}
+			for key, kind := range st.skip {
+				merged.Violations = append(merged.Violations, Violation{Sub: "process", Signature: kind, What: "the process running this case " + kind, Input: key, Count: 1})
+			}
+			merged.Exhaustive = false
 			continue
 		}
 		if st.res == nil {
